@@ -158,16 +158,18 @@ fn expected_trade(resp_id: &barter_execution::order::id::OrderId, time: DateTime
     }
 }
 
-async fn case_run_loop(steps: &[Step], fee: Decimal, latency_ms: u64, seen: &mut HashSet<&'static str>) {
-    let (ex, tx, _erx) = exchange(fee, latency_ms);
+/// `subscribed == false`: nobody listens to the account-event broadcast (a polling-only client): the ledger, the trade log and the queries are the same
+async fn case_run_loop(steps: &[Step], fee: Decimal, latency_ms: u64, subscribed: bool, seen: &mut HashSet<&'static str>) {
+    let (ex, tx, erx) = exchange(fee, latency_ms);
+    let _erx = if subscribed { Some(erx) } else { drop(erx); None };
     let handle = tokio::spawn(ex.run());
     let half = TimeDelta::milliseconds(latency_ms as i64 / 2);
     let mut ledger = Ledger::new();
     let mut accepted: Vec<T> = vec![];
     let mut times: Vec<DateTime<Utc>> = vec![];
     let mut now = t0();
-    let input = format!("MockExchange::run, fee={fee}, latency_ms={latency_ms}, price={PRICE}, balances(btc=10, usdt=100, eth=7); open-order requests (time offset ms, kind, qty): {:?}",
-        steps.iter().scan(0i64, |t, s| { *t += s.dt_ms; Some((*t, s.kind, s.qty)) }).collect::<Vec<_>>());
+    let input = format!("MockExchange::run{}, fee={fee}, latency_ms={latency_ms}, price={PRICE}, balances(btc=10, usdt=100, eth=7); open-order requests (time offset ms, kind, qty): {:?}",
+        if subscribed { "" } else { " with NO subscriber of the account-event broadcast" }, steps.iter().scan(0i64, |t, s| { *t += s.dt_ms; Some((*t, s.kind, s.qty)) }).collect::<Vec<_>>());
     let mut ck = Checker { seen, input };
     for (k, s) in steps.iter().enumerate() {
         now += TimeDelta::milliseconds(s.dt_ms);
@@ -275,7 +277,8 @@ pub fn run(seed: u64, thorough: bool) -> u64 {
                 let steps: Vec<Step> = (0..len).map(|_| { let (dt_ms, kind, qty) = alphabet[c % alphabet.len()]; c /= alphabet.len(); Step { dt_ms, kind, qty } }).collect();
                 let fee = if code % 2 == 0 { dec!(0) } else { dec!(0.1) };
                 let latency = if code % 3 == 2 { 6 } else { 0 };
-                case_run_loop(&steps, fee, latency, &mut seen).await;
+                case_run_loop(&steps, fee, latency, true, &mut seen).await;
+                if code % 4 == 1 || thorough { case_run_loop(&steps, fee, latency, false, &mut seen).await; }
                 if code % 4 == 0 || thorough { case_direct(&steps, fee, &mut seen); }
                 n += 1;
             }
@@ -298,7 +301,7 @@ pub fn run(seed: u64, thorough: bool) -> u64 {
                         at = t;
                     }
                     let fee = if variant & 4 == 0 { dec!(0) } else { dec!(0.1) };
-                    case_run_loop(&steps, fee, if code % 3 == 1 { 6 } else { 0 }, &mut seen).await;
+                    case_run_loop(&steps, fee, if code % 3 == 1 { 6 } else { 0 }, true, &mut seen).await;
                     case_direct(&steps, fee, &mut seen);
                     n += 1;
                 }
@@ -318,7 +321,7 @@ pub fn run(seed: u64, thorough: bool) -> u64 {
                 s
             }).collect();
             let fee = [dec!(0), dec!(0.1)][rng.below(2) as usize];
-            case_run_loop(&steps, fee, [0, 6][rng.below(2) as usize], &mut seen).await;
+            case_run_loop(&steps, fee, [0, 6][rng.below(2) as usize], rng.chance(3, 4), &mut seen).await;
             case_direct(&steps, fee, &mut seen);
             n += 1;
         }
@@ -332,7 +335,7 @@ pub fn run(seed: u64, thorough: bool) -> u64 {
                 qty: Decimal::new(1 + rng.below(40) as i64, 1),
             }).collect();
             let fee = [dec!(0), dec!(0.1), dec!(0.01)][rng.below(3) as usize];
-            case_run_loop(&steps, fee, [0, 0, 6, 11][rng.below(4) as usize], &mut seen).await;
+            case_run_loop(&steps, fee, [0, 0, 6, 11][rng.below(4) as usize], rng.chance(3, 4), &mut seen).await;
             case_direct(&steps, fee, &mut seen);
             n += 1;
         }
